@@ -2,6 +2,7 @@ package actionlint
 
 import (
 	"fmt"
+	"sort"
 	"strings"
 )
 
@@ -88,8 +89,15 @@ func (rule *RuleWorkflowCall) checkWorkflowCallUsesLocal(call *WorkflowCall) {
 		return
 	}
 
-	// Validate inputs
-	for n, i := range m.Inputs {
+	// Validate inputs. Errors for missing inputs and secrets are reported at the same position. Check them in
+	// sorted order to make the order of the errors deterministic.
+	inputNames := make([]string, 0, len(m.Inputs))
+	for n := range m.Inputs {
+		inputNames = append(inputNames, n)
+	}
+	sort.Strings(inputNames)
+	for _, n := range inputNames {
+		i := m.Inputs[n]
 		if i != nil && i.Required {
 			if _, ok := call.Inputs[n]; !ok {
 				rule.Errorf(u.Pos, "input %q is required by %q reusable workflow", i.Name, u.Value)
@@ -116,7 +124,13 @@ func (rule *RuleWorkflowCall) checkWorkflowCallUsesLocal(call *WorkflowCall) {
 
 	// Validate secrets
 	if !call.InheritSecrets {
-		for n, s := range m.Secrets {
+		secretNames := make([]string, 0, len(m.Secrets))
+		for n := range m.Secrets {
+			secretNames = append(secretNames, n)
+		}
+		sort.Strings(secretNames)
+		for _, n := range secretNames {
+			s := m.Secrets[n]
 			if s.Required {
 				if _, ok := call.Secrets[n]; !ok {
 					rule.Errorf(u.Pos, "secret %q is required by %q reusable workflow", s.Name, u.Value)
